@@ -7,13 +7,20 @@
 
   so that `load_classic` applies to what the generator writes.
 
-  Restriction (`_partial`): object VALUES are written with `Spelling.spell`, and `spell ⇒ Spells` is proved for
-  scalar values only (`C02.spell_is_Spells_partial`), so the objects must be `Body.val v v` with `encSimple v`,
-  `wf v` (`SimpleObj`).  Everything else of the layout is unrestricted: every choice stream, object padding
+  Object VALUES are written with `Spelling.spell`; `C02.spell_is_Spells` (Lemmas/SpellEncoder.lean) proves that it
+  emits legal spellings for every value of its domain `wfDeep` - scalars, references, arrays and dictionaries nested
+  to any depth - so the objects may be `Body.val (canon s) s` for any such `s` of depth at most 50 (the loader's
+  limit): the entries are spelled in the order given by `s`, the value reported (and compared by `DocSpec.resolve`)
+  is `canon s`, every dictionary as a sorted map (`SimpleObj`; the scalar-only form it used to have is
+  `SimpleObj.of_scalar`, the form `Body.val v v` for a value with sorted dictionaries is `SimpleObj.of_sorted`).
+  Stream objects `Body.stm` with a direct /Length are covered too (`wstm0`, `wstmOf`, `renderObj_stm`, `wstmOf_ok`: any data,
+  both end-of-line forms after `stream`, all four before `endstream`, /Length anywhere among the entries); a referenced
+  /Length is handled in Lemmas/LoaderE2ERenderFwd.lean (the byte-level lemmas here do not depend on `lenRef`).
+  Everything else of the layout is unrestricted: every choice stream, object padding
   (any white-space / comment run), offsets pointing at the padding or at the object number, any subsection
   partition / header widths / entry terminators, Size and Root in either order, free entries, object 0,
   leading garbage, binary comment.
-  Steps: objects (`renderObj_simple_partial`), body (`renderObjs_body`), trailer (`trailer_spells`), tail
+  Steps: objects (`renderObj_simple`), body (`renderObjs_body`), trailer (`trailer_spells`), tail
   (`tailBytes_eq`, `wsReq_no_s`), table (Lemmas/LoaderE2ERender2.lean), composition (`classicOf_bytes`,
   `classicOf_wf`).
   The subtlety of offsets: with `ofsAtPad = false` the xref offset points AFTER the object's padding, so the piece
@@ -23,6 +30,8 @@
 import Parsley.Lemmas.LoaderE2E
 import Parsley.Spec.Doc
 import Parsley.Lemmas.LoaderE2ERender2
+import Parsley.Lemmas.SpellEncoder
+import Parsley.Lemmas.LoaderE2ERenderX2
 namespace Parsley.LoaderE2E
 open Parsley Parsley.Prim Parsley.Obj Parsley.Indirect Parsley.Loader Parsley.C02 Parsley.Spelling Parsley.DocSpec
 open Parsley.XrefSpec Parsley.C13
@@ -34,31 +43,151 @@ theorem wsOpt_run (c : Ch) : WsRun (wsOpt c).1 := by
   unfold wsOpt
   exact wsRun_run _ _
 
-/-- the object `o` as written (value `v`), without or with its padding -/
-def wobjOf (o : DObj) (v : Obj) (withPad : Bool) : WObj :=
+/-- the object `o` as written: the spelling is `spell s` (entries in the order given), the value it denotes is `c`;
+    without or with its padding.  The depth index is the loader's limit (`Spells` is monotone in it). -/
+def wobjOf (o : DObj) (c s : Obj) (withPad : Bool) : WObj :=
   let c1 := (wsReq o.ch).2
   let c2 := (wsOpt c1).2
   let c3 := (wsReq c2).2
   let c4 := (wsReq c3).2
   ⟨if withPad then o.pad else [], natDigits o.num, (wsReq o.ch).1, natDigits o.gen, (wsOpt c1).1, (wsReq c2).1,
-   (spell v c4).1, (wsReq c3).1, v, 1⟩
+   (spell s c4).1, (wsReq c3).1, c, 50⟩
 
-theorem renderObj_val (o : DObj) (pos : Nat) (v : Obj) (hb : o.body = .val v v) :
-    renderObj o pos = (o.pad ++ ((wobjOf o v false).bytes ++ [10]), (if o.ofsAtPad then pos else pos + o.pad.length), v) := by
+theorem renderObj_val (o : DObj) (pos : Nat) (c s : Obj) (hb : o.body = .val c s) :
+    renderObj o pos = (o.pad ++ ((wobjOf o c s false).bytes ++ [10]), (if o.ofsAtPad then pos else pos + o.pad.length), c) := by
   unfold renderObj
   rw [hb]
   simp [wobjOf, WObj.bytes, bs_obj, bs_endobj]
 
 
-theorem wobjOf_pad (o : DObj) (v : Obj) : (wobjOf o v true).bytes = o.pad ++ (wobjOf o v false).bytes := by
+theorem wobjOf_pad (o : DObj) (c s : Obj) : (wobjOf o c s true).bytes = o.pad ++ (wobjOf o c s false).bytes := by
   simp [wobjOf, WObj.bytes]
 
-/-- the restriction of the link: a scalar value written in its canonical form, white-space padding, numbers in range -/
-def SimpleObj (o : DObj) : Prop :=
-  WsRun o.pad ∧ o.num ≤ i64Max ∧ o.gen ≤ i64Max ∧ ∃ v, o.body = .val v v ∧ wf v = true ∧ encSimple v
+theorem bs_stream : bs "stream" = kwStream := by decide +kernel
+theorem bs_endstream : bs "endstream" = kwEndstream := by decide +kernel
 
-theorem wobjOf_ok (o : DObj) (v : Obj) (withPad : Bool) (hpad : WsRun o.pad) (hn : o.num ≤ i64Max) (hg : o.gen ≤ i64Max)
-    (hwf : wf v = true) (hs : encSimple v) : (wobjOf o v withPad).OK := by
+def eol1Of (k : Nat) : Bytes := if k % 2 == 0 then [10] else [13, 10]
+def eol2Of (k : Nat) : Bytes := match k % 4 with | 0 => [] | 1 => [13] | 2 => [10] | _ => [13, 10]
+
+/-- a written stream object with another padding -/
+def WStm.withPad (w : WStm) (p : Bytes) : WStm := { w with pad := p }
+
+theorem WStm.withPad_bytes (w : WStm) (p : Bytes) : (w.withPad p).bytes = p ++ (w.withPad []).bytes := by
+  cases w
+  simp [WStm.withPad, WStm.bytes, WStm.head, WObj.headBytes, WStm.tailBytes]
+
+/-- the value of a written stream object does not depend on where the padding is counted -/
+theorem WStm.withPad_val (w : WStm) (p : Bytes) (pos : Nat) :
+    ((w.withPad p).val pos).val = ((w.withPad []).val (pos + p.length)).val := by
+  cases w
+  simp only [WStm.withPad, WStm.val, WStm.kwOfs, WObj.valOfs, WStm.head, List.length_nil]
+  congr 2
+  omega
+
+theorem WStm.withPad_num (w : WStm) (p : Bytes) : (w.withPad p).num = w.num := rfl
+theorem WStm.withPad_gen (w : WStm) (p : Bytes) : (w.withPad p).gen = w.gen := rfl
+
+/-- a stream object as written by `renderObj` (dictionary entries `es` = the given entries with /Length inserted, spelled
+    in that order; value = the entries as a sorted map), without its padding -/
+def wstm0 (o : DObj) (entries : List (Bytes × Obj)) (data : Bytes) : WStm :=
+  let c1 := (wsReq o.ch).2
+  let c2 := (wsOpt c1).2
+  let c3 := (wsReq c2).2
+  let c4 := (wsReq c3).2
+  let es := streamEntries o entries data.length
+  let c5 := (spell (.dict es) c4).2
+  ⟨[], natDigits o.num, (wsReq o.ch).1, natDigits o.gen, (wsOpt c1).1, (wsReq c2).1,
+   (spell (.dict es) c4).1, (wsOpt c5).1, eol1Of o.eol1, data, eol2Of o.eol2, (wsReq c3).1, DocSpec.canonKvs es, 50⟩
+
+/-- ... without or with its padding -/
+def wstmOf (o : DObj) (entries : List (Bytes × Obj)) (data : Bytes) (withPad : Bool) : WStm :=
+  (wstm0 o entries data).withPad (if withPad then o.pad else [])
+
+theorem wstmOf_pad (o : DObj) (entries : List (Bytes × Obj)) (data : Bytes) :
+    (wstmOf o entries data true).bytes = o.pad ++ (wstmOf o entries data false).bytes := by
+  simp only [wstmOf, if_true, Bool.false_eq_true, if_false]
+  exact WStm.withPad_bytes _ _
+
+theorem wstmOf_val_pad (o : DObj) (entries : List (Bytes × Obj)) (data : Bytes) (pos : Nat) :
+    ((wstmOf o entries data true).val pos).val = ((wstmOf o entries data false).val (pos + o.pad.length)).val := by
+  simp only [wstmOf, if_true, Bool.false_eq_true, if_false]
+  exact WStm.withPad_val _ _ _
+
+theorem eol2Of_eq (k : Nat) : eol2Of k = (match k % 4 with | 0 => [] | 1 => [13] | 2 => [10] | _ => [13, 10]) := by
+  have h4 : k % 4 = 0 ∨ k % 4 = 1 ∨ k % 4 = 2 ∨ k % 4 = 3 := by omega
+  unfold eol2Of
+  rcases h4 with h4 | h4 | h4 | h4 <;> simp only [h4]
+
+theorem renderObj_stm (o : DObj) (pos : Nat) (entries : List (Bytes × Obj)) (data : Bytes) (hb : o.body = .stm entries data) :
+    renderObj o pos = (o.pad ++ ((wstmOf o entries data false).bytes ++ [10]), (if o.ofsAtPad then pos else pos + o.pad.length),
+      ((wstmOf o entries data false).val (pos + o.pad.length)).val) := by
+  have h4 : o.eol2 % 4 = 0 ∨ o.eol2 % 4 = 1 ∨ o.eol2 % 4 = 2 ∨ o.eol2 % 4 = 3 := by omega
+  unfold renderObj
+  rw [hb]
+  simp only [WStm.val, wstmOf, wstm0, WStm.withPad, WStm.bytes, WStm.head, WObj.headBytes, WStm.tailBytes, WStm.kwOfs, WObj.valOfs,
+    bs_obj, bs_endobj, bs_stream, bs_endstream, eol1Of, eol2Of, Bool.false_eq_true, if_false, List.nil_append, List.length_nil]
+  refine Prod.ext ?_ (Prod.ext rfl ?_)
+  · rcases h4 with h4 | h4 | h4 | h4 <;> simp [h4, List.append_assoc]
+  · simp only
+    congr 2
+    simp only [List.length_append, kwObj, kwStream, List.length_cons, List.length_nil]
+    omega
+
+/-- the values of a dictionary's entries are their own canonical forms (e.g. scalars, or values whose dictionaries are
+    sorted: `canon_sorted`) -/
+def ValsCanon (es : List (Bytes × Obj)) : Prop := ∀ kv ∈ es, canon kv.2 = kv.2
+
+theorem canonKvs_of_valsCanon : ∀ (es : List (Bytes × Obj)), ValsCanon es → Spelling.canonKvs es = es
+  | [], _ => rfl
+  | (k, v) :: t, h => by
+    simp only [Spelling.canonKvs]
+    rw [h (k, v) List.mem_cons_self, canonKvs_of_valsCanon t (fun kv hkv => h kv (List.mem_cons_of_mem _ hkv))]
+
+theorem insAll_eq_foldl : ∀ (l m : List (Bytes × Obj)), insAll m l = l.foldl (fun m kv => dictInsert kv.1 kv.2 m) m
+  | [], _ => rfl
+  | (k, v) :: t, m => by simp only [insAll, List.foldl_cons]; exact insAll_eq_foldl t _
+
+/-- for entries whose values are canonical the value denoted by the spelled dictionary is the encoder's `canonKvs` -/
+theorem canon_dict_eq (es : List (Bytes × Obj)) (h : ValsCanon es) : canon (.dict es) = .dict (DocSpec.canonKvs es) := by
+  simp only [canon, canonKvs_of_valsCanon es h, insAll_eq_foldl]
+  rfl
+
+/-- the objects the link covers (the name dates from the scalar-only version of this file): white-space padding,
+    numbers in range, and EITHER a VALUE OF ANY SHAPE in the exact domain of the executable encoder (`wfDeep`:
+    scalars, references, arrays and dictionaries nested to any depth below the loader's limit), spelled with its
+    entries in any order `s`, the value reported being the one the spelling denotes (`canon s`: every
+    dictionary as a sorted map), OR a STREAM OBJECT with a direct /Length (`Body.stm`, `lenRef = none`): any data, both
+    end-of-line forms after `stream`, all four before `endstream`, /Length inserted anywhere among the entries, the
+    dictionary as written (/Length included) in the encoder's domain, the entries' values in canonical form (the encoder
+    reports the dictionary sorted by key with the values as given).  Streams whose /Length is a reference are not covered. -/
+def SimpleObj (o : DObj) : Prop :=
+  WsRun o.pad ∧ o.num ≤ i64Max ∧ o.gen ≤ i64Max ∧
+    ((∃ s, o.body = .val (canon s) s ∧ wfDeep s = true ∧ Obj.depth s ≤ 50) ∨
+     (∃ entries data, o.body = .stm entries data ∧ o.lenRef = none ∧
+        wfDeep (.dict (streamEntries o entries data.length)) = true ∧
+        Obj.depth (.dict (streamEntries o entries data.length)) ≤ 50 ∧ ValsCanon (streamEntries o entries data.length)))
+
+/-- the objects that are plain values (not streams) -/
+def isVal (o : DObj) : Bool := match o.body with | .val _ _ => true | .stm _ _ => false
+
+/-- the scalar-only form of the restriction (what `SimpleObj` used to be) -/
+theorem SimpleObj.of_scalar {o : DObj} (hpad : WsRun o.pad) (hn : o.num ≤ i64Max) (hg : o.gen ≤ i64Max) (v : Obj)
+    (hb : o.body = .val v v) (hwf : wf v = true) (hs : encSimple v) : SimpleObj o := by
+  refine ⟨hpad, hn, hg, Or.inl ⟨v, ?_, ?_, ?_⟩⟩
+  · cases v <;> first | exact hb | exact hs.elim
+  · cases v <;> first | exact hwf | exact hs.elim | skip
+    simp only [wf] at hwf
+    simp only [wfDeep, Bool.and_eq_true, decide_eq_true_eq]
+    exact ⟨by simpa [encSimple, i64Max] using hs, by simpa using hwf⟩
+  · cases v <;> first | exact hs.elim | simp [Obj.depth]
+
+/-- a value whose dictionaries are sorted is reported as it is spelled -/
+theorem SimpleObj.of_sorted {o : DObj} (hpad : WsRun o.pad) (hn : o.num ≤ i64Max) (hg : o.gen ≤ i64Max) (v : Obj)
+    (hb : o.body = .val v v) (hwf : wfDeep v = true) (hs : sortedDeep v = true) (hd : Obj.depth v ≤ 50) : SimpleObj o :=
+  ⟨hpad, hn, hg, Or.inl ⟨v, by rw [canon_sorted v hs]; exact hb, hwf, hd⟩⟩
+
+theorem wobjOf_ok (o : DObj) (s : Obj) (withPad : Bool) (hpad : WsRun o.pad) (hn : o.num ≤ i64Max) (hg : o.gen ≤ i64Max)
+    (hwf : wfDeep s = true) (hd : Obj.depth s ≤ 50) : (wobjOf o (canon s) s withPad).OK := by
   obtain ⟨n1, n2, n3⟩ := natDigits_spec o.num hn
   obtain ⟨g1, g2, g3⟩ := natDigits_spec o.gen hg
   exact {
@@ -77,31 +206,94 @@ theorem wobjOf_ok (o : DObj) (v : Obj) (withPad : Bool) (hpad : WsRun o.pad) (hn
     gfit := by show digitsVal (natDigits o.gen) 0 ≤ i64Max; rw [g3]; exact hg
     w2 := wsOpt_run _
     w3 := (wsReq_run _).1
-    spells := spell_is_Spells_partial v _ hwf hs
-    depth := by show (1 : Nat) ≤ 50; decide
+    spells := spell_is_Spells s _ 50 hwf hd
+    depth := Nat.le_refl 50
     w4 := (wsReq_run _).1
     w4req := fun _ => (wsReq_run _).2 }
 
-theorem wobjOf_num (o : DObj) (v : Obj) (b : Bool) (hn : o.num ≤ i64Max) : (wobjOf o v b).num = o.num :=
+theorem wobjOf_num (o : DObj) (c s : Obj) (b : Bool) (hn : o.num ≤ i64Max) : (wobjOf o c s b).num = o.num :=
   (natDigits_spec o.num hn).2.2
-theorem wobjOf_gen (o : DObj) (v : Obj) (b : Bool) (hg : o.gen ≤ i64Max) : (wobjOf o v b).gen = o.gen :=
+theorem wobjOf_gen (o : DObj) (c s : Obj) (b : Bool) (hg : o.gen ≤ i64Max) : (wobjOf o c s b).gen = o.gen :=
   (natDigits_spec o.gen hg).2.2
 
-/-- **objects**: a scalar object rendered by `renderObj` is `pad? ++ W.bytes ++ LF` for a well-formed written object `W` -/
-theorem renderObj_simple_partial (o : DObj) (pos : Nat) (h : SimpleObj o) :
-    ∃ (W : WObj) (v : Obj), W.OK ∧ W.num = o.num ∧ W.gen = o.gen ∧ W.v = v ∧ o.body = .val v v ∧
+/-- **objects**: a plain object rendered by `renderObj` is `pad? ++ W.bytes ++ LF` for a well-formed written object `W`
+    whose value is the canonical form of what was spelled -/
+theorem renderObj_simple (o : DObj) (pos : Nat) (hpad : WsRun o.pad) (hn : o.num ≤ i64Max) (hg : o.gen ≤ i64Max) (s : Obj)
+    (hb : o.body = .val (canon s) s) (hwf : wfDeep s = true) (hd : Obj.depth s ≤ 50) :
+    ∃ (W : WObj), W.OK ∧ W.num = o.num ∧ W.gen = o.gen ∧ W.v = canon s ∧
       renderObj o pos = ((if o.ofsAtPad then [] else o.pad) ++ (W.bytes ++ [10]),
-        pos + (if o.ofsAtPad then [] else o.pad).length, v) := by
-  obtain ⟨hpad, hn, hg, v, hb, hwf, hs⟩ := h
-  refine ⟨wobjOf o v o.ofsAtPad, v, wobjOf_ok o v _ hpad hn hg hwf hs, wobjOf_num o v _ hn, wobjOf_gen o v _ hg, rfl, hb, ?_⟩
-  rw [renderObj_val o pos v hb]
+        pos + (if o.ofsAtPad then [] else o.pad).length, canon s) := by
+  refine ⟨wobjOf o (canon s) s o.ofsAtPad, wobjOf_ok o s _ hpad hn hg hwf hd, wobjOf_num o _ s _ hn, wobjOf_gen o _ s _ hg,
+    rfl, ?_⟩
+  rw [renderObj_val o pos _ s hb]
   cases hp : o.ofsAtPad
   · simp
   · simp [wobjOf_pad]
 
+theorem eol1Of_mem (k : Nat) : eol1Of k ∈ Framing.eolsAfterStream := by
+  unfold eol1Of Framing.eolsAfterStream
+  split <;> simp
+
+theorem eol2Of_mem (k : Nat) : eol2Of k ∈ Framing.eolsBeforeEndstream := by
+  unfold eol2Of Framing.eolsBeforeEndstream
+  split <;> simp
+
+/-- the written stream object is lexically well formed -/
+theorem wstmOf_ok (o : DObj) (entries : List (Bytes × Obj)) (data : Bytes) (withPad : Bool) (hpad : WsRun o.pad)
+    (hn : o.num ≤ i64Max) (hg : o.gen ≤ i64Max)
+    (hwf : wfDeep (.dict (streamEntries o entries data.length)) = true)
+    (hd : Obj.depth (.dict (streamEntries o entries data.length)) ≤ 50)
+    (hc : ValsCanon (streamEntries o entries data.length)) : (wstmOf o entries data withPad).OK := by
+  obtain ⟨n1, n2, n3⟩ := natDigits_spec o.num hn
+  obtain ⟨g1, g2, g3⟩ := natDigits_spec o.gen hg
+  have hsp := spell_is_Spells (.dict (streamEntries o entries data.length)) (wsReq (wsReq (wsOpt (wsReq o.ch).2).2).2).2 50 hwf hd
+  rw [canon_dict_eq _ hc] at hsp
+  exact {
+    head := {
+      pad := by
+        show WsRun (if withPad then o.pad else [])
+        cases withPad
+        · exact WsRun.nil
+        · exact hpad
+      nne := n1
+      ndig := n2
+      nfit := by show digitsVal (natDigits o.num) 0 ≤ i64Max; rw [n3]; exact hn
+      w1 := (wsReq_run _).1
+      w1ne := (wsReq_run _).2
+      gne := g1
+      gdig := g2
+      gfit := by show digitsVal (natDigits o.gen) 0 ≤ i64Max; rw [g3]; exact hg
+      w2 := wsOpt_run _
+      w3 := (wsReq_run _).1
+      spells := hsp
+      depth := Nat.le_refl 50
+      w4 := wsOpt_run _
+      w4req := by intro h; exact absurd h (by simp [WStm.head, endsReg]) }
+    e1 := eol1Of_mem _
+    e2 := eol2Of_mem _
+    w4 := (wsReq_run _).1 }
+
+theorem wstmOf_num (o : DObj) (entries : List (Bytes × Obj)) (data : Bytes) (b : Bool) (hn : o.num ≤ i64Max) :
+    (wstmOf o entries data b).num = o.num := (natDigits_spec o.num hn).2.2
+theorem kLength_eq : DocSpec.kLength = keyLength := by decide +kernel
+theorem wstmOf_gen (o : DObj) (entries : List (Bytes × Obj)) (data : Bytes) (b : Bool) (hg : o.gen ≤ i64Max) :
+    (wstmOf o entries data b).gen = o.gen := (natDigits_spec o.gen hg).2.2
+
+/-- /Length is among the written entries, once, with the data length -/
+theorem streamEntries_length (o : DObj) (entries : List (Bytes × Obj)) (n : Nat) (hl : o.lenRef = none)
+    (hnd : ((streamEntries o entries n).map Prod.fst).Nodup) :
+    dictGet keyLength (DocSpec.canonKvs (streamEntries o entries n)) = some (.int n) := by
+  apply dictGet_canon_mem _ hnd
+  unfold streamEntries insertAt
+  rw [hl, kLength_eq]
+  simp
+
 /-! ## the body -/
 
 def valOf (o : DObj) : Obj := match o.body with | .val c _ => c | .stm _ _ => .null
+
+/-- the value as handed to the spelling encoder (entry order as written) -/
+def spelledOf (o : DObj) : Obj := match o.body with | .val _ s => s | .stm _ _ => .null
 
 /-- the padding that is NOT part of the object's piece (the offset points after it) -/
 def preOf (o : DObj) : Bytes := if o.ofsAtPad then [] else o.pad
@@ -110,33 +302,76 @@ def nextPre : List DObj → Bytes
   | [] => []
   | o :: _ => preOf o
 
-def pieceOf (o : DObj) : Piece := (wobjOf o (valOf o) o.ofsAtPad).piece
+def pieceOf (o : DObj) : Piece :=
+  match o.body with
+  | .val c s => (wobjOf o c s o.ofsAtPad).piece
+  | .stm entries data => (wstmOf o entries data o.ofsAtPad).piece
+
+theorem pieceOf_val_eq (o : DObj) (c s : Obj) (hb : o.body = .val c s) : pieceOf o = (wobjOf o c s o.ofsAtPad).piece := by
+  unfold pieceOf; rw [hb]
+theorem pieceOf_stm_eq (o : DObj) (entries : List (Bytes × Obj)) (data : Bytes) (hb : o.body = .stm entries data) :
+    pieceOf o = (wstmOf o entries data o.ofsAtPad).piece := by
+  unfold pieceOf; rw [hb]
 
 /-- the body as pieces: every object is followed by its LF and the detached padding of the next one -/
 def placedOf : List DObj → List Placed
   | [] => []
   | o :: t => ⟨pieceOf o, [10] ++ nextPre t⟩ :: placedOf t
 
-theorem renderObj_piece (o : DObj) (pos : Nat) (h : SimpleObj o) :
-    renderObj o pos = (preOf o ++ ((pieceOf o).bytes ++ [10]), pos + (preOf o).length, valOf o) := by
-  obtain ⟨hpad, hn, hg, v, hb, hwf, hs⟩ := h
-  have hv : valOf o = v := by simp [valOf, hb]
-  rw [renderObj_val o pos v hb, pieceOf, hv]
-  unfold preOf WObj.piece
-  cases hp : o.ofsAtPad
-  · simp
-  · simp [wobjOf_pad]
+/-- the keys of a dictionary in the encoder's domain are distinct -/
+theorem wfDeepKvs_nodup : ∀ (es : List (Bytes × Obj)), wfDeepKvs es = true → (es.map Prod.fst).Nodup
+  | [], _ => List.nodup_nil
+  | (k, v) :: t, h => by
+    simp only [wfDeepKvs, Bool.and_eq_true, List.all_eq_true, bne_iff_ne, ne_eq] at h
+    simp only [List.map_cons, List.nodup_cons, List.mem_map, not_exists, not_and]
+    exact ⟨fun p hp hk => h.1.1.2 p hp hk, wfDeepKvs_nodup t h.2⟩
 
-theorem pieceOf_num (o : DObj) (h : SimpleObj o) : (pieceOf o).num = o.num := wobjOf_num o _ _ h.2.1
-theorem pieceOf_gen (o : DObj) (h : SimpleObj o) : (pieceOf o).gen = o.gen := wobjOf_gen o _ _ h.2.2.1
-theorem pieceOf_val (o : DObj) (i : Nat) : ((pieceOf o).val i).val = valOf o := rfl
+theorem renderObj_piece (o : DObj) (pos : Nat) (h : SimpleObj o) :
+    renderObj o pos = (preOf o ++ ((pieceOf o).bytes ++ [10]), pos + (preOf o).length,
+      ((pieceOf o).val (pos + (preOf o).length)).val) := by
+  obtain ⟨hpad, hn, hg, ⟨s, hb, hwf, hd⟩ | ⟨entries, data, hb, hl, hwf, hd, hc⟩⟩ := h
+  · rw [renderObj_val o pos _ s hb, pieceOf_val_eq o _ s hb]
+    unfold preOf WObj.piece
+    cases hp : o.ofsAtPad
+    · simp
+      rfl
+    · simp [wobjOf_pad]
+      rfl
+  · rw [renderObj_stm o pos entries data hb, pieceOf_stm_eq o entries data hb]
+    unfold preOf WStm.piece
+    cases hp : o.ofsAtPad
+    · simp
+    · simp only [if_true, List.nil_append, List.length_nil, Nat.add_zero, wstmOf_pad, wstmOf_val_pad]
+      simp
+
+theorem pieceOf_num (o : DObj) (h : SimpleObj o) : (pieceOf o).num = o.num := by
+  obtain ⟨hpad, hn, hg, ⟨s, hb, _⟩ | ⟨entries, data, hb, _⟩⟩ := h
+  · rw [pieceOf_val_eq o _ s hb]; exact wobjOf_num o _ _ _ hn
+  · rw [pieceOf_stm_eq o entries data hb]; exact wstmOf_num o _ _ _ hn
+theorem pieceOf_gen (o : DObj) (h : SimpleObj o) : (pieceOf o).gen = o.gen := by
+  obtain ⟨hpad, hn, hg, ⟨s, hb, _⟩ | ⟨entries, data, hb, _⟩⟩ := h
+  · rw [pieceOf_val_eq o _ s hb]; exact wobjOf_gen o _ _ _ hg
+  · rw [pieceOf_stm_eq o entries data hb]; exact wstmOf_gen o _ _ _ hg
+/-- a plain object's value does not depend on where it is written -/
+theorem pieceOf_val (o : DObj) (i : Nat) (hv : isVal o = true) : ((pieceOf o).val i).val = valOf o := by
+  unfold isVal at hv
+  unfold pieceOf valOf
+  split at hv
+  · rfl
+  · cases hv
+/-- a stream object's value: the entries with /Length as a sorted map, and a content descriptor holding the data -/
+theorem pieceOf_val_stm (o : DObj) (i : Nat) (entries : List (Bytes × Obj)) (data : Bytes) (hb : o.body = .stm entries data) :
+    ∃ start, ((pieceOf o).val i).val = .stream (DocSpec.canonKvs (streamEntries o entries data.length)) ⟨start, data.length, data⟩ := by
+  rw [pieceOf_stm_eq o entries data hb]
+  exact ⟨_, rfl⟩
 
 theorem pieceOf_reads (o : DObj) (h : SimpleObj o) : (pieceOf o).Reads := by
-  obtain ⟨hpad, hn, hg, v, hb, hwf, hs⟩ := h
-  have hv : valOf o = v := by simp [valOf, hb]
-  unfold pieceOf
-  rw [hv]
-  exact WObj.piece_reads _ (wobjOf_ok o v _ hpad hn hg hwf hs)
+  obtain ⟨hpad, hn, hg, ⟨s, hb, hwf, hd⟩ | ⟨entries, data, hb, hl, hwf, hd, hc⟩⟩ := h
+  · rw [pieceOf_val_eq o _ s hb]
+    exact WObj.piece_reads _ (wobjOf_ok o s _ hpad hn hg hwf hd)
+  · rw [pieceOf_stm_eq o entries data hb]
+    refine WStm.piece_reads _ (wstmOf_ok o entries data _ hpad hn hg hwf hd hc) ?_
+    exact streamEntries_length o entries data.length hl (wfDeepKvs_nodup _ (by simpa [wfDeep] using hwf))
 
 /-- **body**: the objects rendered one after the other are the detached padding of the first one, then the pieces;
     the offsets handed to the cross-reference data are the pieces' places, the values are the pieces' values -/
@@ -158,7 +393,7 @@ theorem renderObjs_body : ∀ (objs : List DObj) (pos : Nat), (∀ o ∈ objs, S
     have e1 : nextPre (o :: t) = preOf o := rfl
     have e2 : placedOf (o :: t) = ⟨pieceOf o, [10] ++ nextPre t⟩ :: placedOf t := rfl
     rw [e1, e2]
-    simp only [bodyBytes, place, List.map_cons, pieceOf_num o ho, pieceOf_gen o ho, pieceOf_val]
+    simp only [bodyBytes, place, List.map_cons, pieceOf_num o ho, pieceOf_gen o ho]
     simp only [List.append_assoc]
 
 
@@ -643,15 +878,26 @@ theorem classicOf_wf (garbage : Bytes) (binary : Bool) (r : Rev) (hg : NoMagic g
       rfl }
 
 
-theorem pieces_written : ∀ (objs : List DObj) (p : Nat), (∀ o ∈ objs, SimpleObj o) →
+theorem pieces_written : ∀ (objs : List DObj) (p : Nat), (∀ o ∈ objs, SimpleObj o) → (∀ o ∈ objs, isVal o = true) →
     (place (placedOf objs) p).map (fun q => ((q.1.num, q.1.gen), (q.1.val q.2).val)) =
       objs.map (fun o => ((o.num, o.gen), valOf o))
-  | [], _, _ => rfl
-  | o :: t, p, h => by
+  | [], _, _, _ => rfl
+  | o :: t, p, h, hv => by
     have ho := h o List.mem_cons_self
     show (((pieceOf o).num, (pieceOf o).gen), ((pieceOf o).val p).val) :: (place (placedOf t) _).map _ = _
-    rw [pieces_written t _ (fun x hx => h x (List.mem_cons_of_mem _ hx)), pieceOf_num o ho, pieceOf_gen o ho]
+    rw [pieces_written t _ (fun x hx => h x (List.mem_cons_of_mem _ hx)) (fun x hx => hv x (List.mem_cons_of_mem _ hx)),
+      pieceOf_num o ho, pieceOf_gen o ho, pieceOf_val o p (hv o List.mem_cons_self)]
     rfl
+
+/-- every object of the revision is one of the placed pieces -/
+theorem mem_place_placedOf : ∀ (objs : List DObj) (p : Nat), ∀ o ∈ objs, ∃ i, (pieceOf o, i) ∈ place (placedOf objs) p
+  | [], _, _, h => by cases h
+  | x :: t, p, o, h => by
+    simp only [List.mem_cons] at h
+    rcases h with rfl | h
+    · exact ⟨p, by simp [placedOf, place]⟩
+    · obtain ⟨i, hi⟩ := mem_place_placedOf t _ o h
+      exact ⟨i, by simp only [placedOf, place, List.mem_cons]; exact Or.inr hi⟩
 
 /-- **the link**: the file rendered for one simple classic revision is (the bytes of) a well-formed `ClassicFile`
     whose objects are exactly what the revision said it wrote -/
@@ -661,13 +907,18 @@ theorem render_is_classic (garbage : Bytes) (binary : Bool) (r : Rev) (hg : NoMa
       f.bytes = (renderHistory garbage binary [(r, .auto)]).1 ∧ f.WF D r.root ∧
       (renderHistory garbage binary [(r, .auto)]).2.2.2 =
         [⟨f.objs.map (fun q => ((q.1.num, q.1.gen), (q.1.val q.2).val)), r.frees.map Prod.fst, r.root⟩] ∧
-      f.objs.map (fun q => ((q.1.num, q.1.gen), (q.1.val q.2).val)) = r.objs.map (fun o => ((o.num, o.gen), valOf o)) := by
+      ((∀ o ∈ r.objs, isVal o = true) →
+        f.objs.map (fun q => ((q.1.num, q.1.gen), (q.1.val q.2).val)) = r.objs.map (fun o => ((o.num, o.gen), valOf o))) ∧
+      f.objs.map Prod.fst = r.objs.map pieceOf := by
   have hb := classicOf_bytes garbage binary r h
   rw [hb] at hlen ⊢
-  refine ⟨classicOf garbage binary r, _, rfl, classicOf_wf garbage binary r hg h hlen, ?_, ?_⟩
+  refine ⟨classicOf garbage binary r, _, rfl, classicOf_wf garbage binary r hg h hlen, ?_, ?_, ?_⟩
   · show [_] = [_]
     rw [classicOf_objs, renderObjs_body r.objs _ h.objs]
+  · intro hv
+    rw [classicOf_objs]
+    exact pieces_written r.objs _ h.objs hv
   · rw [classicOf_objs]
-    exact pieces_written r.objs _ h.objs
+    exact place_fst r.objs _
 
 end Parsley.LoaderE2E
